@@ -1,6 +1,6 @@
 (* Extraction of the executable model.  ExtrOcamlBasic only (its directives are listed in
    DESIGN.md §8); nat, string and ascii stay the extracted inductives. *)
 From Coq Require Import Extraction ExtrOcamlBasic.
-From HS Require Import Codec.
+From HS Require Import Codec CodecA.
 Extraction Language OCaml.
-Extraction "model.ml" run_line.
+Extraction "model.ml" run_line_all.
